@@ -15,6 +15,9 @@
 (*  Total       merge / test raised                                                          *)
 (*  HolTest, HolPartition  the same for the wrapper (queried pairs; all indexed terms)       *)
 (*  HolYields, HolYieldsRefl  an equality reported by test has an explanation theorem        *)
+(*  HolGapFree  a gap of the theorem is a merged equation that was merged WITHOUT a proof    *)
+(*        term (no gap at all when every merge carried one; the driver then checks the       *)
+(*        exported proof with no_gaps, judged by HolChecked)                                 *)
 (*  HolStates, HolChecked, HolHyps, HolEntails   the theorem states s = t, the checker       *)
 (*        accepts the exported proof with the same statement, hypotheses and gaps are merged *)
 (*        equations, and they entail the equality                                            *)
@@ -78,6 +81,9 @@ HolClauses(e) ==
   \cup (IF \E x \in Ok : \/ \E h \in Hyps(x) \cup SetOf(x.ch) : ~InE(HEq(h), CE)
                          \/ \E g \in SetOf(x.gaps) : Len(g.h) # 0
         THEN {"HolHyps"} ELSE {})
+  \cup (IF \E x \in Ok : \E g \in SetOf(x.gaps) :
+              ~\E i \in 1..Len(e.ceqs) : ~e.cpt[i] /\ (e.ceqs[i] = HEq(g.c) \/ e.ceqs[i] = <<"c", g.c[2], g.c[1]>>)
+        THEN {"HolGapFree"} ELSE {})
   \cup (IF \E x \in Ok : LET r2 == RepMap(U, { HEq(h) : h \in { h \in Hyps(x) : h[1] \in U /\ h[2] \in U } } \cup FE) IN r2[x.s] # r2[x.t]
         THEN {"HolEntails"} ELSE {})
 HolNontrivial(e) == e.exc = "" /\ (Len(e.tests) > 0 \/ Len(e.explains) > 0 \/ Len(e.ceqs) > 0)
